@@ -41,7 +41,10 @@ func factText(f *Fact) string {
 }
 
 // Query text for one obligation (standalone).
-func (e *Enc) query(o *Obl, models bool) string {
+func (e *Enc) query(o *Obl, models bool) string { return e.queryS(o, models, false) }
+
+// queryS: sliced = leave out facts that belong to other paths (see relevantFacts)
+func (e *Enc) queryS(o *Obl, models bool, sliced bool) string {
 	var b strings.Builder
 	b.WriteString("; obligation " + o.Name + "\n")
 	if models {
@@ -49,7 +52,7 @@ func (e *Enc) query(o *Obl, models bool) string {
 	}
 	b.WriteString("(set-logic ALL)\n")
 	b.WriteString(e.header())
-	for _, f := range e.relevantFacts(o) {
+	for _, f := range e.relevantFacts(o, sliced) {
 		b.WriteString(factText(f))
 		b.WriteString("\n")
 	}
@@ -271,8 +274,15 @@ func raceOne(e *Enc, o *Obl, cfg *SolverCfg, base string) {
 	}
 	ctx, cancel := context.WithCancel(context.Background())
 	defer cancel()
-	ch := make(chan ans, len(solvers))
-	for _, s := range solvers {
+	slicedFile := strings.TrimSuffix(file, ".smt2") + ".sliced.smt2"
+	os.WriteFile(slicedFile, []byte(e.queryS(o, true, true)), 0o644)
+	if !cfg.KeepFiles {
+		defer os.Remove(slicedFile)
+	}
+	runs := append([]solverSpec{}, solvers...)
+	runs = append(runs, solverSpec{"z3-new/sliced", func(_ string, t int) []string { return []string{"z3-new", fmt.Sprintf("-T:%d", t), slicedFile} }})
+	ch := make(chan ans, len(runs))
+	for _, s := range runs {
 		go func(s solverSpec) {
 			solverSlots <- struct{}{}
 			defer func() { <-solverSlots }()
@@ -286,9 +296,13 @@ func raceOne(e *Enc, o *Obl, cfg *SolverCfg, base string) {
 	}
 	var got []ans
 	var sat, unsat *ans
-	for range solvers {
+	for range runs {
 		a := <-ch
 		got = append(got, a)
+		if a.res == "sat" && a.solver == "z3-new/sliced" {
+			a.res = "sat-of-sliced-query"
+			got[len(got)-1] = a
+		}
 		if a.res == "sat" && sat == nil {
 			x := a
 			sat = &x
@@ -373,7 +387,7 @@ func trimModel(out string) string {
 // relevantFacts: cone of influence of the obligation: facts (earlier than the
 // obligation) connected to the goal/guard through shared symbols.  Dropping
 // unconnected facts only weakens the premises, so a refutation stays valid.
-func (e *Enc) relevantFacts(o *Obl) []*Fact {
+func (e *Enc) relevantFacts(o *Obl, sliced bool) []*Fact {
 	e.factVarsOnce.Do(func() {
 		e.factVars = make([]map[string]*Sort, len(e.facts))
 		for i, f := range e.facts {
@@ -399,7 +413,7 @@ func (e *Enc) relevantFacts(o *Obl) []*Fact {
 	// obligation's block belongs to another path; leaving it out only weakens the
 	// hypotheses (sound) and keeps the query small
 	skip := make([]bool, n)
-	if e.blockGuard != nil {
+	if e.blockGuard != nil && sliced {
 		gv := map[string]*Sort{}
 		o.Guard.Vars(gv)
 		ob, cnt := -1, 0
@@ -515,6 +529,7 @@ func (e *Enc) pathSplit(o *Obl, cfg *SolverCfg, file string) {
 		expand(c, 1)
 	}
 	base := e.query(o, false)
+	baseSliced := e.queryS(o, false, true)
 	total := 0.0
 	used := map[string]bool{}
 	caseT := cfg.TimeoutS
@@ -525,13 +540,20 @@ func (e *Enc) pathSplit(o *Obl, cfg *SolverCfg, file string) {
 		q := strings.Replace(base, "(check-sat)", "(assert "+c.String()+")\n(check-sat)", 1)
 		cf := fmt.Sprintf("%s.case%d.smt2", strings.TrimSuffix(file, ".smt2"), i)
 		os.WriteFile(cf, []byte(q), 0o644)
-		// race the two deciding solvers on this case
+		cfs := strings.TrimSuffix(cf, ".smt2") + ".sliced.smt2"
+		os.WriteFile(cfs, []byte(strings.Replace(baseSliced, "(check-sat)", "(assert "+c.String()+")\n(check-sat)", 1)), 0o644)
+		if !cfg.KeepFiles {
+			defer os.Remove(cfs)
+		}
+		// race the deciding solvers on this case (z3-new also on the path-sliced query)
 		t0 := time.Now()
 		ctx, cancel := context.WithCancel(context.Background())
 		type cres struct{ name, res string }
-		ch := make(chan cres, 2)
+		ch := make(chan cres, 3)
 		n := 0
-		for _, sp := range solvers {
+		caseRuns := append([]solverSpec{}, solvers...)
+		caseRuns = append(caseRuns, solverSpec{"z3-new/sliced", func(_ string, t int) []string { return []string{"z3-new", fmt.Sprintf("-T:%d", t), cfs} }})
+		for _, sp := range caseRuns {
 			if sp.name == "z3" {
 				continue
 			}
@@ -553,7 +575,7 @@ func (e *Enc) pathSplit(o *Obl, cfg *SolverCfg, file string) {
 				used[r.name] = true
 				break
 			}
-			if r.res == "sat" {
+			if r.res == "sat" && r.name != "z3-new/sliced" {
 				res = "sat"
 				break
 			}
@@ -631,7 +653,7 @@ func (e *Enc) goalSplit(o *Obl, cfg *SolverCfg, file string) {
 	sk := "sk!goal"
 	inst := body.Subst(map[string]*Term{g.Q[0].Name: Var(sk, IntS)})
 	xs := x.Subst(map[string]*Term{g.Q[0].Name: Var(sk, IntS)})
-	base := e.query(o, false)
+	base := e.queryS(o, false, true)
 	k := strings.LastIndex(base, "(assert (not ")
 	if k < 0 {
 		return
